@@ -1026,6 +1026,206 @@ theorem swapLoop_spec (imp : List (List Nat)) : ∀ (f : Nat) (l l' : List Named
           intro p y q hp hq
           exact hu.2 p y q (by rw [← hp]; simpa using hu.1.symm) hq
 
+/-! ### `__sort_models`: the swap loop stops on acyclic inheritance with every base available
+
+A sweep leaves the leading models whose bases are resolved where they are, and carries the first
+model that is not resolved to the very end (nothing it passes on the way is examined). So the
+loop is a rotating queue behind a growing resolved prefix; acyclicity keeps a ready model in the
+queue, and each rotation brings the first ready model one step closer to the front. -/
+
+/-- the models of `P` pass one after the other, starting from the resolved names `r` -/
+def Passes : List (List Nat) → List Named → Prop
+  | _, [] => True
+  | r, p :: P => basesResolved r p = true ∧ Passes (p.name :: r) P
+
+def resAfter (r : List (List Nat)) (P : List Named) : List (List Nat) := (P.map (·.name)).reverse ++ r
+
+theorem resAfter_cons (r : List (List Nat)) (p : Named) (P : List Named) :
+    resAfter (p.name :: r) P = resAfter r (p :: P) := by
+  simp [resAfter]
+
+theorem passes_snoc : ∀ (P : List Named) (r : List (List Nat)) (y : Named), Passes r P →
+    basesResolved (resAfter r P) y = true → Passes r (P ++ [y]) := by
+  intro P
+  induction P with
+  | nil => intro r y _ h; exact ⟨by simpa [resAfter] using h, trivial⟩
+  | cons p P ih =>
+    intro r y hp h
+    exact ⟨hp.1, ih (p.name :: r) y hp.2 (by rw [resAfter_cons]; exact h)⟩
+
+theorem sweep_last (r : List (List Nat)) (y : Named) (acc : List Named) (ch : Bool) :
+    sweep r y acc ch [] = (acc ++ [y], ch) := rfl
+
+theorem sweep_bad : ∀ (R : List Named) (r : List (List Nat)) (y : Named) (acc : List Named) (ch : Bool),
+    basesResolved r y = false → R ≠ [] → sweep r y acc ch R = (acc ++ R ++ [y], true) := by
+  intro R
+  induction R with
+  | nil => intro r y acc ch _ h; exact absurd rfl h
+  | cons z R ih =>
+    intro r y acc ch hb _
+    simp only [sweep, hb, Bool.false_eq_true, if_false]
+    cases R with
+    | nil => simp [sweep]
+    | cons w R =>
+      rw [ih r y (acc ++ [z]) true hb (by simp)]
+      simp
+
+/-- a sweep walks through a passing prefix without touching it -/
+theorem sweep_prefix : ∀ (P : List Named) (r : List (List Nat)) (cur : Named) (acc : List Named)
+    (ch : Bool) (y : Named) (R : List Named), Passes r (cur :: P) →
+    sweep r cur acc ch (P ++ y :: R) = sweep (resAfter r (cur :: P)) y (acc ++ cur :: P) ch R := by
+  intro P
+  induction P with
+  | nil =>
+    intro r cur acc ch y R hp
+    simp only [List.nil_append, sweep, hp.1, if_true]
+    simp [resAfter]
+  | cons p P ih =>
+    intro r cur acc ch y R hp
+    simp only [List.cons_append, sweep, hp.1, if_true]
+    rw [ih (cur.name :: r) p (acc ++ [cur]) ch y R hp.2, resAfter_cons]
+    simp
+
+/-- the sweep of `P ++ y :: R` when `P` passes: it is decided at `y` -/
+theorem sweep_at (imp : List (List Nat)) (P : List Named) (y : Named) (R : List Named)
+    (hp : Passes imp P) :
+    ∃ x xs, P ++ y :: R = x :: xs ∧
+      sweep imp x [] false xs = sweep (resAfter imp P) y P false R := by
+  cases P with
+  | nil => exact ⟨y, R, rfl, by simp [resAfter]⟩
+  | cons p P =>
+    refine ⟨p, P ++ y :: R, rfl, ?_⟩
+    rw [sweep_prefix P imp p [] false y R hp]
+    simp
+
+structure AllAvailable (imp : List (List Nat)) (l0 : List Named) : Prop where
+  avail : ∀ m ∈ l0, ∀ b ∈ m.bases, b ≠ m.name → b ∈ imp ∨ b ∈ l0.map (·.name)
+  rank : ∃ rank : List Nat → Nat, ∀ m ∈ l0, ∀ b ∈ m.bases, b ≠ m.name → b ∈ l0.map (·.name) →
+    rank b < rank m.name
+
+/-- a non-empty queue behind a passing prefix contains a ready model -/
+theorem exists_ready (imp : List (List Nat)) (l0 P Q : List Named) (hperm : (P ++ Q).Perm l0)
+    (hyp : AllAvailable imp l0) (hQ : Q ≠ []) :
+    ∃ A z B, Q = A ++ z :: B ∧ basesResolved (resAfter imp P) z = true := by
+  obtain ⟨rank, hrank⟩ := hyp.rank
+  -- a model of minimal rank in Q
+  have hmin : ∃ z ∈ Q, ∀ z' ∈ Q, rank z.name ≤ rank z'.name := by
+    clear hperm
+    induction Q with
+    | nil => exact absurd rfl hQ
+    | cons x xs ih =>
+      cases xs with
+      | nil => exact ⟨x, List.mem_cons_self .., by simp⟩
+      | cons y ys =>
+        obtain ⟨z, hz, hm⟩ := ih (by simp)
+        rcases Nat.le_total (rank x.name) (rank z.name) with hle | hle
+        · refine ⟨x, List.mem_cons_self .., ?_⟩
+          intro z' hz'
+          rcases List.mem_cons.mp hz' with rfl | hz'
+          · exact Nat.le_refl _
+          · exact Nat.le_trans hle (hm z' hz')
+        · refine ⟨z, List.mem_cons_of_mem _ hz, ?_⟩
+          intro z' hz'
+          rcases List.mem_cons.mp hz' with rfl | hz'
+          · exact hle
+          · exact hm z' hz'
+  obtain ⟨z, hz, hm⟩ := hmin
+  obtain ⟨A, B, rfl⟩ := List.append_of_mem hz
+  refine ⟨A, z, B, rfl, ?_⟩
+  have hz0 : z ∈ l0 := hperm.mem_iff.mp (List.mem_append_right _ hz)
+  simp only [basesResolved, List.all_eq_true, Bool.or_eq_true, beq_iff_eq, List.contains_iff_mem]
+  intro b hb
+  by_cases hne : b = z.name
+  · exact Or.inl hne
+  · right
+    simp only [resAfter, List.mem_append, List.mem_reverse]
+    rcases hyp.avail z hz0 b hb hne with h | h
+    · exact Or.inr h
+    · left
+      have hb0 := hrank z hz0 b hb hne h
+      have : b ∈ (P ++ (A ++ z :: B)).map (·.name) := ((hperm.map (·.name)).mem_iff).mpr h
+      rw [List.map_append, List.mem_append] at this
+      rcases this with h | h
+      · exact h
+      · obtain ⟨z', hz', rfl⟩ := List.mem_map.mp h
+        have := hm z' hz'
+        omega
+
+/-- main induction: queue length, then distance of the first ready model from the head -/
+theorem swapLoop_terminates_aux (imp : List (List Nat)) (l0 : List Named) (hyp : AllAvailable imp l0) :
+    ∀ (q : Nat) (P Q : List Named), Q.length = q → (P ++ Q).Perm l0 → Passes imp P →
+    ∃ f, (swapLoop imp f (P ++ Q)).isSome = true := by
+  intro q
+  induction q using Nat.strongRecOn with
+  | _ q ihq =>
+    -- inner statement, by induction on the position of a ready model
+    have inner : ∀ (d : Nat) (P Q A : List Named) (z : Named) (B : List Named), Q.length = q →
+        (P ++ Q).Perm l0 → Passes imp P → Q = A ++ z :: B → A.length = d →
+        basesResolved (resAfter imp P) z = true →
+        ∃ f, (swapLoop imp f (P ++ Q)).isSome = true := by
+      intro d
+      induction d with
+      | zero =>
+        intro P Q A z B hq hperm hp hQ hA hz
+        have : A = [] := List.eq_nil_of_length_eq_zero hA
+        subst this
+        subst hQ
+        -- the head is ready: it joins the prefix
+        have := ihq B.length (by simp at hq; omega) (P ++ [z]) B rfl (by simpa using hperm)
+          (passes_snoc P imp z hp hz)
+        simpa using this
+      | succ d ihd =>
+        intro P Q A z B hq hperm hp hQ hA hz
+        cases A with
+        | nil => simp at hA
+        | cons y A =>
+          subst hQ
+          by_cases hy : basesResolved (resAfter imp P) y = true
+          · have := ihq (A ++ z :: B).length (by simp at hq ⊢; omega) (P ++ [y]) (A ++ z :: B) rfl
+              (by simpa using hperm) (passes_snoc P imp y hp hy)
+            simpa using this
+          · have hy' : basesResolved (resAfter imp P) y = false := by simpa using hy
+            -- one sweep rotates `y` to the end
+            obtain ⟨x, xs, hx, hsw⟩ := sweep_at imp P y (A ++ z :: B) hp
+            rw [sweep_bad (A ++ z :: B) _ y P false hy' (by simp)] at hsw
+            have hrot : (P ++ ((A ++ z :: B) ++ [y])).Perm l0 := by
+              refine (List.Perm.append_left P ?_).trans hperm
+              simpa using (List.perm_append_comm (l₁ := A ++ z :: B) (l₂ := [y]))
+            obtain ⟨f, hf⟩ := ihd P ((A ++ z :: B) ++ [y]) A z (B ++ [y]) (by simp at hq ⊢; omega) hrot hp
+              (by simp) (by simpa using hA) hz
+            refine ⟨f + 1, ?_⟩
+            have hx' : P ++ (y :: A ++ z :: B) = x :: xs := by simpa using hx
+            rw [hx']
+            simp only [swapLoop, hsw, if_true]
+            simpa [List.append_assoc] using hf
+    intro P Q hq hperm hp
+    by_cases hQ : Q = []
+    · subst hQ
+      -- everything passes: the first sweep changes nothing
+      refine ⟨1, ?_⟩
+      cases hP : P with
+      | nil => simp [swapLoop]
+      | cons p P' =>
+        subst hP
+        rcases List.eq_nil_or_concat P' with rfl | ⟨P'', y, hP'⟩
+        · simp [swapLoop, sweep]
+        · rw [List.concat_eq_append] at hP'
+          subst hP'
+          have hp' : Passes imp (p :: P'') := by
+            clear hperm ihq inner hq
+            have : ∀ (P : List Named) (r : List (List Nat)) (y : Named), Passes r (P ++ [y]) → Passes r P := by
+              intro P
+              induction P with
+              | nil => intro r y _; trivial
+              | cons a P ih => intro r y h; exact ⟨h.1, ih _ _ h.2⟩
+            exact this (p :: P'') imp y hp
+          have := sweep_prefix P'' imp p [] false y [] hp'
+          simp only [List.append_nil, swapLoop]
+          rw [this, sweep_last]
+          simp
+    · obtain ⟨A, z, B, hQe, hz⟩ := exists_ready imp l0 P Q hperm hyp hQ
+      exact inner A.length P Q A z B hq hperm hp hQe rfl hz
+
 /-! ### `__sort_models` on a 2-cycle -/
 
 def nmA : Named := ⟨[65], [[66]]⟩
